@@ -3,13 +3,13 @@ from __future__ import annotations
 
 import ast as _ast
 
-from ..common import all_conds, nshow, paths
+from ..common import all_conds, conds_at, nshow, paths
 from ..expr import C, SELF, canon, strip_epochs
 from ..intervals import EQ, GT, LT, path_orderings
 from ..model import AnalysisError
-from .C09 import BLOOMS, NEWEST, add_alt_shape, appender_ok, list_ops, sub_counter_once
+from .C09 import BLOOMS, NEWEST, add_alt_shape, appended_ok, entry_paths, list_ops, sub_counter_once
 
-EXPL = ("Decision table of RotatingBloomFilter.__rotate_bloom_filter over the predicates force, ready (newest.count vs "
+EXPL = ("Decision table of the rotation, judged through its callers add_alt and push with the private helpers looked through, over the predicates forced (push), ready (newest.count vs "
         "est_elements, by admitted orderings under count <= est) and room (queue length vs max_queue_size): a sub-filter is "
         "appended exactly when force or ready; an append without room is preceded by exactly one pop(0), an append with room "
         "by none; a pop is always followed by an append; eviction is at index 0, insertion at [-1], growth by append (FIFO "
@@ -33,30 +33,27 @@ def check(prog, rep, tier):
     rep.rule("C10.sub-counter", "a sub-filter counts one per add_alt", floor=1)
     rep.assume("inductive hypotheses: newest.count <= est_elements; 1 <= queue length <= max_queue_size (established by these rules; "
                "loading with a smaller max_queue_size than was saved is outside the claim)")
-    add_alt_shape(prog, rep, "C10", CTX, "__rotate_bloom_filter", "_added_elements")
-    rot = prog.method(CTX, "__rotate_bloom_filter")
-    adder = prog.method(CTX, "__add_bloom_filter")
-    ps = [p for p in paths(prog, CTX, rot) if p.exit[0] == "return"]
-    rep.analysed(rot, CTX, len(ps))
+    f_add, add_rows, shape_ok = add_alt_shape(prog, rep, "C10", CTX, "_added_elements")
     count = ("f", NEWEST, "_els_added", 0)
     est = ("f", NEWEST, "_est_elements", 0)
     own_est = ("f", SELF, "_ExpandingBloomFilter__est_elements", 0)
     qlen = ("call", ("g", "len"), (BLOOMS,), ())
     qmax = ("f", SELF, "_queue_size", 0)
-    where = f"{CTX}.__rotate_bloom_filter"
-    good = True
+    good = shape_ok
     rows = set()
-    for p in ps:
-        conds = [strip_epochs(c) for c in all_conds(p)]
-        force = None
-        for c in p.conds:
-            if strip_epochs(c.atom) == ("p", "force"):
-                force = c.truth
+    okapp = None
+    # the rotation is judged through its two callers: add_alt (rotate when the newest sub-filter is full) and push (always rotate)
+    f_push, push_ps = entry_paths(prog, CTX, "push")
+    rep.analysed(f_push, CTX, len(push_ps))
+    cases = [("add_alt", f_add, p, ins, ops, False) for (p, ins, ops) in add_rows if ins is not None]
+    cases += [("push", f_push, p, None, list_ops(prog, CTX, p, set()), True) for p in push_ps if p.exit[0] == "return"]
+    for entry, fn, p, ins, evs, forced in cases:
+        where = f"{CTX}.{entry}"
+        conds = [strip_epochs(c) for c in (conds_at(p, ins) if ins is not None else all_conds(p))]
         ready = (path_orderings(conds, count, est) & path_orderings(conds, count, own_est)) & {LT, EQ}
         room = path_orderings(conds, qlen, qmax) & {LT, EQ}
-        ops = [o[0] for o in list_ops(prog, CTX, p, {adder.qualname})]
-        evs = list_ops(prog, CTX, p, {adder.qualname})
-        loc = evs[0][1].where() if evs else rot.where()
+        ops = [o[0] for o in evs]
+        loc = evs[0][1].where() if evs else fn.where()
         bad_ops = [o for o in ops if o not in ("append", "pop0")]
         if bad_ops:
             rep.bad("C10.rotation-table", where, f"operation {bad_ops[0]}", f"the rotation performs {bad_ops[0]} on the queue; only pop(0) (evict oldest) and append (grow at the back) keep it FIFO", loc)
@@ -64,17 +61,17 @@ def check(prog, rep, tier):
             continue
         appended = ops.count("append")
         popped = ops.count("pop0")
-        rows.add((force, tuple(sorted(ready)), tuple(sorted(room)), tuple(ops)))
-        must = force is True or ready <= {EQ}
-        mustnot = force is False and ready <= {LT}
+        rows.add((entry, tuple(sorted(ready)), tuple(sorted(room)), tuple(ops)))
+        must = forced or ready <= {EQ}
+        mustnot = (not forced) and ready <= {LT}
         if not (must or mustnot):
-            rep.bad("C10.rotation-table", where, f"force={force} count-vs-est {sorted(ready)}",
-                    f"a path of the rotation does not decide force / readiness (force={force}, newest.count vs est in {sorted(ready)})", rot.where())
+            rep.bad("C10.rotation-table", where, f"count-vs-est {sorted(ready)}",
+                    f"a path of {entry} does not decide whether the newest sub-filter is full (newest.count vs est in {sorted(ready)}) before inserting", fn.where())
             good = False
             continue
         if must and appended != 1:
-            rep.bad("C10.rotation-table", where, f"force={force} ready={sorted(ready)} appends={appended}",
-                    f"with force={force} and newest.count vs est in {sorted(ready)} the queue gets {appended} new sub-filter(s); exactly one is required", loc)
+            rep.bad("C10.rotation-table", where, f"forced={forced} ready={sorted(ready)} appends={appended}",
+                    f"with {'a forced rotation' if forced else 'the newest sub-filter full'} (newest.count vs est in {sorted(ready)}) the queue gets {appended} new sub-filter(s); exactly one is required", loc)
             good = False
             continue
         if mustnot and (appended or popped):
@@ -83,6 +80,8 @@ def check(prog, rep, tier):
             good = False
             continue
         if appended:
+            ok1 = appended_ok(rep, "C10.append", where, p, fn, "_ExpandingBloomFilter__est_elements")
+            okapp = ok1 if okapp is None else (okapp and ok1)
             if room <= {LT}:
                 if popped:
                     rep.bad("C10.rotation-table", where, "pop with room", "the oldest sub-filter is dropped although the queue has room", loc)
@@ -98,9 +97,16 @@ def check(prog, rep, tier):
         elif popped:
             rep.bad("C10.rotation-table", where, "pop without append", "a sub-filter is evicted without a new one being appended: the queue can run empty", loc)
             good = False
-    if good:
-        rep.ok("C10.rotation-table", f"{where}: {len(rows)} rows as prescribed")
-    appender_ok(prog, rep, "C10.append", CTX, adder, "_ExpandingBloomFilter__est_elements")
+    if good and rows:
+        rep.ok("C10.rotation-table", f"{CTX}.add_alt / push: {len(rows)} rows as prescribed")
+    if okapp:
+        rep.ok("C10.append", f"{CTX}: rotation appends one BloomFilter(est_elements=self est)")
+    elif okapp is None and shape_ok:
+        rep.bad("C10.append", CTX, "never rotates", "no path of add_alt / push appends a new sub-filter", f_add.where())
+    if any(c[0] == "push" for c in cases):
+        rep.ok("C10.push", f"{CTX}.push: every path rotates (judged in the rotation table)")
+    else:
+        rep.bad("C10.push", f"{CTX}.push", "push does not return", "push() has no normally returning path", f_push.where())
     sub_counter_once(prog, rep, "C10.sub-counter")
     # pop guard
     popf = prog.method(CTX, "pop")
@@ -131,20 +137,6 @@ def check(prog, rep, tier):
         rep.ok("C10.pop-guard", f"{CTX}.pop")
     elif okp:
         rep.bad("C10.pop-guard", f"{CTX}.pop", "no refusal", "pop() never refuses", popf.where())
-    # push forces
-    push = prog.method(CTX, "push")
-    okpush = False
-    for p in paths(prog, CTX, push):
-        for e in p.events:
-            if e.kind == "call" and e.target is rot:
-                fv = e.kwargs.get("force") if e.kwargs else None
-                if fv is None and e.args:
-                    fv = e.args[0]
-                okpush = fv == C(True)
-    if okpush:
-        rep.ok("C10.push", f"{CTX}.push -> rotate(force=True)")
-    else:
-        rep.bad("C10.push", f"{CTX}.push", "push does not force", "push() does not force a rotation", push.where())
     # limit writers
     from ..common import mro_methods
     writers = set()
@@ -171,7 +163,7 @@ MUTANTS = [
     Mutant("ready compares the total counter", _E, replace_expr("RotatingBloomFilter", "__rotate_bloom_filter", "blm.elements_added == blm.estimated_elements", "self.elements_added == blm.estimated_elements"), rule="C10.rotation"),
     Mutant("pop guard == 1 -> == 0", _E, replace_expr("RotatingBloomFilter", "pop", "self.current_queue_size == 1", "self.current_queue_size == 0"), rule="C10.pop-guard"),
     Mutant("pop removes the newest", _E, replace_expr("RotatingBloomFilter", "pop", "self._blooms.pop(0)", "self._blooms.pop()"), rule="C10.pop-guard"),
-    Mutant("push without force", _E, replace_expr("RotatingBloomFilter", "push", "self.__rotate_bloom_filter(force=True)", "self.__rotate_bloom_filter()"), rule="C10.push"),
+    Mutant("push without force", _E, replace_expr("RotatingBloomFilter", "push", "self.__rotate_bloom_filter(force=True)", "self.__rotate_bloom_filter()"), rule="C10.rotation"),
     Mutant("add_alt rotates after inserting", _E,
            replace_stmt("RotatingBloomFilter", "add_alt", "if force or not self.check_alt(hashes)", "if force or not self.check_alt(hashes):\n    self._blooms[-1].add_alt(hashes)\n    self.__rotate_bloom_filter()"), rule="C10.growth-precedes"),
     Mutant("rotating add_alt does not count duplicates", _E,
